@@ -361,7 +361,19 @@ inline GFile gen_file(Src &s, const GOpts &o) {
         } else
           e.trail.push_back(std::nullopt);
       }
-      if (f.cls == DC_NONE) e.trail.push_back(std::nullopt);
+      if (f.cls == DC_NONE) {
+        // a key of a delimiter-less file may be followed by a comment too (and still has no value)
+        if (o.trail && e.key.find('"') == std::string::npos && s.chance(20)) {
+          char c = C[s.below((uint32_t)C.size())];
+          std::string tt = gen_text(s, a_ttext, gen_len(s, 0, o.long_fields));
+          std::string lead = s.chance(50) ? " " : "";
+          l.text += gen_blanks(s, 0, 2) + c + lead + tt;
+          l.has_trail = true;
+          l.ctext = lead + tt;
+          e.trail.push_back(lead + tt);
+        } else
+          e.trail.push_back(std::nullopt);
+      }
       e.first_line = e.last_line = nlines + 1;
       e.comments_since_prev = pending_comments;
       e.block_before = last_block;
